@@ -145,6 +145,7 @@ func shouldBeginNewResponse(builders []*Builder, blkSize uint64) bool {
 // Startup starts the processing of messages, and creates an initial message
 // based on the given initial wantlist.
 func (mq *MessageQueue) Startup() {
+	verifhook.Event("mq.startup", mq)
 	go mq.runQueue()
 }
 
